@@ -141,6 +141,15 @@ def stepX (s : DState) (line : String) : DState × Option String :=
     | some n, some f, some e =>
       ({ s with w := { s.w with cfgs := setCfg s.w.cfgs n { filename := f, snapsDir := [], extension := e, update := none } } }, some "cfgrel ok")
     | _, _, _ => bad s line
+  | ["setenv", _, _] =>
+    -- the process changes its environment while it runs: the mode of the run is what the `mode` line (the
+    -- start-up capture of CI / UPDATE_SNAPS) said, a later change is not consulted
+    (s, some "setenv ok")
+  | ["fsrmdir", p] =>
+    -- a directory removed with everything in it
+    match unhex p with
+    | some p => ({ s with w := { s.w with fs := s.w.fs.filter (fun e => !((p ++ [47]).isPrefixOf e.1)) } }, some "fsrmdir ok")
+    | none => bad s line
   | ["chdir", _] =>
     -- the test changes its working directory: nothing in the model depends on it (ordinary builds)
     (s, some "chdir ok")
@@ -166,6 +175,13 @@ theorem stepX_jsonpath_state (s : DState) (line o doc : String) (steps : List St
 working directory -/
 theorem stepX_chdir_state (s : DState) (line d : String)
     (h : (line.splitOn " ").filter (· ≠ "") = ["chdir", d]) : (stepX s line).1 = s := by
+  unfold stepX
+  rw [h]
+  simp only
+
+/-- `stepX` never changes the state on a `setenv` line: the mode is the start-up capture -/
+theorem stepX_setenv_state (s : DState) (line k v : String)
+    (h : (line.splitOn " ").filter (· ≠ "") = ["setenv", k, v]) : (stepX s line).1 = s := by
   unfold stepX
   rw [h]
   simp only
